@@ -322,7 +322,9 @@ def bfs(layout_name, quick, pid, ctx, first):
     within a partition)
     '''
     ops   = ops_for(layout_name, quick)
-    depth = 4 if quick else 6
+    # thorough: one level deeper for C01 (3.8 M states, ~15 min); C02 and C03
+    # read their clauses off the same histories and stay at depth 4
+    depth = 4 if (quick or pid != 'C01') else 5
     seen  = dict()
     front = collections.deque()
     n_trans = 0
